@@ -8766,3 +8766,8 @@ impl Point {
     pub fn verif_recode_u128_NAF(n: u128) -> [i8; 130] { Self::recode_u128_NAF(n) }
     pub fn verif_lookup(win: &[Self; 16], k: i8) -> Self { Self::lookup(win, k) }
 }
+
+#[cfg(pornin_crrl_verif)]
+impl PublicKey {
+    pub fn verif_ux_comp() -> &'static [u64; 16385] { &UX_COMP }
+}
